@@ -36,7 +36,7 @@ def module_prologues():
         if m:
             extra = os.path.join(ROOT, 'spec', 'mod_%s.rs' % m.replace('::', '_'))
             imp = ''.join('#[allow(unused_imports)] use crate::%s::*;\n' % x for x in ('arithmetic', 'rounding') if x != m)
-            bc = 'broadcast use {crate::ax::axiom_ref_into_self, crate::ax::axiom_ref_into_self_obeys, crate::shim::axiom_spec_magnitude, crate::ax::val_algebra};\n'
+            bc = 'broadcast use {vstd::group_vstd_default, crate::ax::axiom_ref_into_self, crate::ax::axiom_ref_into_self_obeys, crate::shim::axiom_spec_magnitude, crate::ax::val_algebra};\n'
             pro[m] = common + imp + bc + (open(extra).read() if os.path.exists(extra) else '')
     return pro
 
@@ -142,6 +142,15 @@ def main(argv):
                 if x['file_name'].endswith('gen.rs'):
                     snippet = src_lines[x['line_start'] - 1].strip()[:160]
             print('- [%s] %s\n      %s\n      > %s' % (key, d['message'][:200], locs[:300], snippet))
+    elif argv[0] == 'drift':
+        # contract-file hygiene: on the tree the contracts were written for, every annotated copy must match the
+        # normalised source token for token (stub=always entries with an empty body are exempt)
+        entries = all_entries()
+        em = gen.build(entries, None)
+        bad = [f for f in em.functions if f['drift_tokens'] and not any(e.key == f['key'] and e.opts.get('stub') == 'always' for e in entries)]
+        for f in bad:
+            print('DRIFT', f['drift_tokens'], f['key'])
+        print('%d entries, %d with drift, hints lost %d' % (len(em.functions), len(bad), em.lost))
     elif argv[0] == 'gen':
         units = None
         out = os.path.join(ROOT, 'build', 'gen.rs')
